@@ -28,9 +28,13 @@ let handle = function
     let f = (match op with "ULT" -> si_ult | "ULE" -> si_ule | "UGT" -> si_ugt | "UGE" -> si_uge
       | "SLT" -> si_slt | "SLE" -> si_sle | "SGT" -> si_sgt | "SGE" -> si_sge | _ -> failwith "ucmp") in
     res_sexp (function TT -> A "TT" | TF -> A "TF" | TM -> A "TM") (f (si_of a) (si_of b))
+  | L [A "qmax"; A sg; a] -> res_sexp a_z (si_max (sg = "1") (si_of a))
+  | L [A "qmin"; A sg; a] -> res_sexp a_z (si_min (sg = "1") (si_of a))
+  | L [A "qeval"; A sg; a; A n] -> res_sexp (fun l -> L (List.map a_z l)) (si_eval (sg = "1") (si_of a) (nat_of_int (int_of_string n)))
   | L [A "sbounds"; a] -> res_sexp (fun l -> L (List.map (fun (x, y) -> L [a_z x; a_z y]) l)) (signed_bounds (si_of a))
   | L [A "ubounds"; a] -> res_sexp (fun l -> L (List.map (fun (x, y) -> L [a_z x; a_z y]) l)) (unsigned_bounds (si_of a))
-  | L [A "zext"; a; n] -> L [A "ok"; si_sexp (si_zext (si_of a) (z_a n))]
+  | L [A "zext"; a; n] -> res_sexp si_sexp (si_zext (si_of a) (z_a n))
+  | L [A "not"; a] -> res_sexp si_sexp (si_not (si_of a))
   | L [A "neg"; a] -> res_sexp si_sexp (si_neg (si_of a))
   | L [A "dsis_add"; L s; L t] -> res_sexp (fun r -> L (List.map si_sexp r)) (dsis_add (List.map si_of s) (List.map si_of t))
   | L [A "dsis_sub"; L s; L t] -> res_sexp (fun r -> L (List.map si_sexp r)) (dsis_sub (List.map si_of s) (List.map si_of t))
